@@ -447,6 +447,14 @@ func (w *streamingResponseWriter) WriteHeader(status int) {
 	if w.wroteHeader {
 		return
 	}
+	if status >= 100 && status <= 199 && status != http.StatusSwitchingProtocols {
+		// Informational (1xx) responses, e.g. `103 Early Hints`, are interim
+		// responses that precede the final response.
+		//
+		// We only forward a single response to the proxy, so we drop the
+		// interim ones and wait for the final status code.
+		return
+	}
 	w.wroteHeader = true
 
 	// Initialize the response trailers.
